@@ -12,6 +12,9 @@ for ID in $IDS; do
   D=seeded/$ID; P=${ID%-*}
   [ -f $D/patch.diff ] || continue
   DEMO=$(ls $D/demo.py $D/demo 2>/dev/null | head -1)
+  # a change whose mechanism was removed by a later fix: is verified against the commit it was written for
+  BASE=$(python3 -c "import json,sys; print(json.load(open('$D/meta.json')).get('base_commit',''))" 2>/dev/null)
+  git -C "$WT/repo" checkout -q --detach ${BASE:-$(git -C /repo rev-parse HEAD)}
   ( cd $D && timeout 600 /venv/bin/python $(basename $DEMO) "$WT/repo" >"$WT/clean.log" 2>&1 ); C=$?
   if ! git -C "$WT/repo" apply "$PWD/$D/patch.diff" 2>/dev/null; then echo "$ID: PATCH DOES NOT APPLY"; continue; fi
   ( cd $D && timeout 600 /venv/bin/python $(basename $DEMO) "$WT/repo" >"$WT/mut.log" 2>&1 ); M=$?
@@ -20,5 +23,5 @@ for ID in $IDS; do
   git -C "$WT/repo" checkout -q -- . ; git -C "$WT/repo" clean -fdq
   ST=ok; [ "$C" = 0 ] || ST="DEMO-FAILS-ON-CLEAN($C)"; [ "$M" = 1 ] || ST="$ST DEMO-PASSES-WITH-CHANGE($M)"
   [ -n "$LINE" ] || ST="$ST NOT-DETECTED"
-  echo "$ID: $ST | $LINE"
+  echo "$ID: $ST${BASE:+ (at base commit $BASE)} | $LINE"
 done
